@@ -19,79 +19,8 @@ static bool g_c03 = false;
 static uint64_t g_evals = 0, g_invalid_lines = 0, g_valid_lines = 0, g_unspec = 0, g_surface = 0;
 static std::map<std::string, uint64_t> g_rule_hits;
 
-struct RCfg { Cfg cfg; std::vector<std::vector<std::string>> dom; std::string family; };   // dom[i]: value texts of argument i ("" element list for flags)
-
-static Arg mk(char sk, const char* lk, Kind k, int keykind = 2) { Arg a; if (keykind != 1) a.sk = sk; if (keykind != 0) a.lk = lk; a.kind = k; return a; }
-static Check ck(int type, double a = 0, double b = 0, const std::string& s = "") { Check c; c.type = type; c.a = a; c.b = b; c.s = s; return c; }
-static std::vector<std::string> generic_dom(Kind k) {
-   switch (k) { case FLAG: return {}; case INT: return {"5", "6"}; case DBL: return {"2.5"}; case STR: return {"ab", "cd"}; case OPTINT: return {"5"}; case VECINT: return {"5", "4,6"}; case VECSTR: return {"ab", "ab,cd"}; }
-   return {};
-}
-
-static void families(std::vector<RCfg>& out, bool thorough) {
-   auto push = [&](const std::string& fam, Cfg c, std::vector<std::vector<std::string>> dom) { RCfg r; r.cfg = c; r.dom = dom; r.family = fam; out.push_back(r); };
-   const Arg flagB = mk('b', "beta", FLAG);
-   // F1 mandatory
-   for (Kind k : {INT, STR, VECINT, OPTINT}) { Cfg c; Arg a = mk('a', "alpha", k); a.mandatory = true; c.args = {a, flagB}; push("mandatory", c, {generic_dom(k), {}}); }
-   // F2 checks, F9 conversion
-   { struct CD { Kind k; Check c; std::vector<std::string> dom; };
-     std::vector<CD> cds = {
-        {INT, ck(1, 3), {"2", "3", "4"}}, {INT, ck(2, 7), {"6", "7", "8"}}, {INT, ck(3, 3, 7), {"2", "3", "6", "7"}},
-        {DBL, ck(1, 1.5), {"1.25", "1.5"}}, {DBL, ck(2, 7), {"6.75", "7"}}, {DBL, ck(3, 1.5, 7), {"1.25", "1.5", "7"}},
-        {OPTINT, ck(3, 3, 7), {"2", "3", "7"}},
-        {STR, ck(4, 0, 0, "a,b"), {"a", "b", "c", "A", "ab"}}, {STR, ck(5, 2), {"a", "ab"}}, {STR, ck(6, 3), {"abc", "abcd"}}, {STR, ck(7, 0, 0, "[ab]+"), {"ab", "abc", "a"}},
-        {VECINT, ck(3, 3, 7), {"3", "3,6", "3,7", "2"}}, {VECSTR, ck(4, 0, 0, "a,b"), {"a,b", "a,c"}}, {VECSTR, ck(6, 2), {"ab,c", "ab,cde"}} };
-     for (auto& cd : cds) { Cfg c; Arg a = mk('a', "alpha", cd.k); a.checks = {cd.c}; c.args = {a, flagB}; push("check", c, {cd.dom, {}}); }
-     // two checks on one argument are and-ed
-     { Cfg c; Arg a = mk('a', "alpha", INT); a.checks = {ck(1, 3), ck(2, 7)}; c.args = {a, flagB}; push("check", c, {{"2", "3", "6", "7"}, {}}); }
-     { Cfg c; Arg a = mk('a', "alpha", STR); a.checks = {ck(5, 2), ck(6, 3)}; c.args = {a, flagB}; push("check", c, {{"a", "ab", "abc", "abcd"}, {}}); }
-     for (Kind k : {INT, DBL, OPTINT, VECINT}) { Cfg c; c.args = {mk('a', "alpha", k), flagB};
-        std::vector<std::string> d = k == DBL ? std::vector<std::string>{"2.5", "x", "1.5.2"} : k == VECINT ? std::vector<std::string>{"5", "4,x", "1.5", "99999999999"} : std::vector<std::string>{"5", "x", "1.5", "99999999999", "5x"};
-        push("convert", c, {d, {}}); } }
-   // F3 cardinality
-   for (Kind k : {FLAG, INT, STR, OPTINT}) { Cfg c; c.args = {mk('a', "alpha", k), flagB}; push("cardinality", c, {generic_dom(k), {}}); }
-   for (int card = 1; card <= 4; ++card) for (Kind k : {VECINT, VECSTR}) { Cfg c; Arg a = mk('a', "alpha", k); a.card = card; a.cardA = card == 3 ? 1 : 2; a.cardB = 2; c.args = {a, flagB};
-      push("cardinality", c, {k == VECINT ? std::vector<std::string>{"1", "1,2", "1,2,3"} : std::vector<std::string>{"a", "a,b", "a,b,c"}, {}}); }
-   { Cfg c; Arg a = mk('a', "alpha", INT); a.card = 2; a.cardA = 2; c.args = {a, flagB}; push("cardinality", c, {{"5", "6"}, {}}); }
-   // F4 excludes / F5 requires: every key kind of the constraining argument and of the partner
-   for (int req = 0; req < 2; ++req) for (Kind k0 : {FLAG, INT}) for (Kind k1 : {FLAG, INT, VECINT}) for (int kk0 = 0; kk0 < 3; ++kk0) for (int kk1 = 0; kk1 < 3; ++kk1) {
-      if (!thorough && kk0 != 2 && kk1 != 2) continue;
-      Cfg c; Arg a = mk('a', "alpha", k0, kk0), b = mk('b', "beta", k1, kk1), g = mk('g', "gamma", FLAG);
-      if (req) a.req = {1}; else a.excl = {1};
-      c.args = {a, b, g}; push(req ? "requires" : "excludes", c, {generic_dom(k0).empty() ? std::vector<std::string>{} : std::vector<std::string>{"5"}, generic_dom(k1).empty() ? std::vector<std::string>{} : std::vector<std::string>{generic_dom(k1)[0]}, {}});
-   }
-   // F6 all_of / any_of / one_of
-   for (int t = 1; t <= 3; ++t) for (Kind k0 : {FLAG, INT}) for (Kind k1 : {FLAG, STR}) for (int kk = 0; kk < 3; ++kk) {
-      Cfg c; c.args = {mk('a', "alpha", k0, kk), mk('b', "beta", k1, 2), mk('g', "gamma", FLAG)}; HConstraint h; h.type = t; h.members = {0, 1}; c.hcs = {h};
-      push(t == 1 ? "all_of" : t == 2 ? "any_of" : "one_of", c, {k0 == FLAG ? std::vector<std::string>{} : std::vector<std::string>{"5"}, k1 == FLAG ? std::vector<std::string>{} : std::vector<std::string>{"ab"}, {}});
-   }
-   { Cfg c; c.args = {mk('a', "alpha", FLAG), mk('b', "beta", FLAG), mk('g', "gamma", INT)}; HConstraint h; h.type = 3; h.members = {0, 1, 2}; c.hcs = {h}; push("one_of", c, {{}, {}, {"5"}}); }
-   // F7 differ / disjoint
-   { Cfg c; c.args = {mk('a', "alpha", INT), mk('b', "beta", INT), mk('g', "gamma", FLAG)}; HConstraint h; h.type = 4; h.members = {0, 1}; c.hcs = {h}; push("differ", c, {{"5", "6"}, {"5", "7"}, {}}); }
-   { Cfg c; c.args = {mk('a', "alpha", STR), mk('b', "beta", STR), mk('g', "gamma", FLAG)}; HConstraint h; h.type = 4; h.members = {0, 1}; c.hcs = {h}; push("differ", c, {{"x", "y"}, {"x", "z"}, {}}); }
-   { Cfg c; Arg a = mk('a', "alpha", VECINT), b = mk('b', "beta", VECINT); c.args = {a, b, mk('g', "gamma", FLAG)}; HConstraint h; h.type = 5; h.members = {0, 1}; c.hcs = {h}; push("disjoint", c, {{"1,2", "3"}, {"2,4", "5,1", "6"}, {}}); }
-   // F8 deprecated
-   { Cfg c; Arg a = mk('a', "alpha", INT); a.deprecated = true; c.args = {a, flagB}; push("deprecated", c, {{"5"}, {}}); }
-   { Cfg c; Arg a = mk('a', "alpha", FLAG); a.deprecated = true; c.args = {a, flagB}; push("deprecated", c, {{}, {}}); }
-   // keys with a shared prefix (exact key vs abbreviation, ambiguity) under rules
-   { Cfg c; Arg a = mk('a', "alpha", INT), b = mk('p', "alphabet", INT), g = mk('g', "al", FLAG); a.checks = {ck(3, 3, 7)}; c.args = {b, a, g}; push("prefix-keys", c, {{"5"}, {"2", "3"}, {}}); }
-   // multi-value argument + positional argument: free values go to the multi-value argument only directly after it
-   for (Kind pk : {STR, INT}) { Cfg c; Arg n = mk('n', "numbers", VECINT); n.multival = true; Arg pos; pos.kind = pk; c.args = {n, mk('v', "verbose", FLAG), pos, mk('w', "width", INT)};
-      push("multival-positional", c, {{"1", "1,2"}, {}, {pk == STR ? "file.dat" : "77"}, {"5"}}); }
-   // pairs of families on disjoint arguments (thorough)
-   if (thorough) {
-      size_t n = out.size();
-      for (size_t i = 0; i < n; i += 3) for (size_t j = i + 1; j < n; j += 5) {
-         if (out[i].family == out[j].family || out[i].family == "prefix-keys" || out[j].family == "prefix-keys") continue;
-         RCfg r; r.family = out[i].family + "+" + out[j].family; r.cfg = out[i].cfg; r.dom = out[i].dom; size_t off = r.cfg.args.size();
-         // rename the second configuration's arguments: d,e,f / delta, epsilon, phi
-         static const char sk[] = {'d', 'e', 'f'}; static const char* lk[] = {"delta", "epsilon", "phi"};
-         for (size_t a = 0; a < out[j].cfg.args.size(); ++a) { Arg x = out[j].cfg.args[a]; if (x.sk) x.sk = sk[a]; if (!x.lk.empty()) x.lk = lk[a]; for (int& e : x.excl) e += int(off); for (int& e : x.req) e += int(off); r.cfg.args.push_back(x); r.dom.push_back(out[j].dom[a]); }
-         for (auto h : out[j].cfg.hcs) { for (int& m : h.members) m += int(off); r.cfg.hcs.push_back(h); }
-         out.push_back(r);
-      }
-   }
-}
+#include "harness/rule_families.hpp"
+using namespace rules;
 
 // bystander variants for C03: the same configuration with additional, unused arguments
 static std::vector<Cfg> with_bystanders(const Cfg& base, bool thorough) {
